@@ -6,8 +6,8 @@ Import ListNotations.
 From GMS Require Import Codec.C25Arith Codec.C27Convert Codec.C26Compare Codec.C26CompareProofs.
 Open Scope Z_scope.
 
-(* for every integer type (all widths, signed / unsigned) and DECIMAL (column and non-column), over all values
-   including NULL, integers of every Go carrier and decimals: *)
+(* for every integer type (all widths, signed / unsigned), DECIMAL (column and non-column), DATE, DATETIME(p),
+   TIMESTAMP(p), YEAR, TIME and strings under a binary collation, over all values including NULL: *)
 Theorem C26_compare_reflexive : forall t a, compare t a a = 0.
 Proof. exact compare_refl. Qed.
 Print Assumptions C26_compare_reflexive.
@@ -17,13 +17,13 @@ Proof. exact compare_antisym. Qed.
 Print Assumptions C26_compare_antisymmetric.
 
 Theorem C26_compare_transitive :
-  forall t a b c, wf_type t -> wf a -> wf b -> wf c ->
+  forall t a b c, wf_type t -> wf_for t a -> wf_for t b -> wf_for t c ->
     compare t a b <= 0 -> compare t b c <= 0 -> compare t a c <= 0.
 Proof. exact compare_trans. Qed.
 Print Assumptions C26_compare_transitive.
 
 Theorem C26_compare_equality_transitive :
-  forall t a b c, wf_type t -> wf a -> wf b -> wf c ->
+  forall t a b c, wf_type t -> wf_for t a -> wf_for t b -> wf_for t c ->
     compare t a b = 0 -> compare t b c = 0 -> compare t a c = 0.
 Proof. exact compare_eq_trans. Qed.
 Print Assumptions C26_compare_equality_transitive.
@@ -35,7 +35,7 @@ Print Assumptions C26_compare_total.
 (* "NULL sorts before every non-NULL value" is FALSE of the faithful model: CompareNulls returns +1 for
    (NULL, non-NULL), i.e. NULL is consistently the greatest element (ORDER BY handles NULLs itself) *)
 Theorem C26_null_first_refuted :
-  forall t x, compare t CNull (CV x) = 1 /\ compare t (CV x) CNull = -1 /\ compare t CNull CNull = 0.
+  forall t x, x <> CNull -> compare t CNull x = 1 /\ compare t x CNull = -1 /\ compare t CNull CNull = 0.
 Proof. exact null_sorts_last. Qed.
 Print Assumptions C26_null_first_refuted.
 
@@ -58,6 +58,48 @@ Theorem C26_compare_via_convert_refuted :
    compare (CInt U32) (CV (SU 0)) (CV (SU 37)) = -1).
 Proof. exact (conj via_convert_noncolumn_decimal via_convert_unsigned_negative_fraction). Qed.
 Print Assumptions C26_compare_via_convert_refuted.
+
+(* strings under a binary collation (VARBINARY; utf8mb4_bin on valid UTF-8) are ordered byte-wise, a proper prefix
+   first ([cmp_bytes]); the laws above cover them, and equal means identical *)
+Theorem C26_binary_collation_equal_iff_identical :
+  forall p q, compare CBin (CX (TStr p)) (CX (TStr q)) = 0 <-> p = q.
+Proof. exact binary_compare_equal_iff. Qed.
+Print Assumptions C26_binary_collation_equal_iff_identical.
+
+(* temporal types are ordered by the microsecond count [us_of] (DATE: truncated to the day; text operands rounded to
+   the type's precision); that count is the chronological order over EVERY valid date of the years 1000..9999 *)
+Theorem C26_day_count_is_chronological :
+  forall y1 m1 d1 y2 m2 d2, valid_date y1 m1 d1 -> valid_date y2 m2 d2 ->
+    (y1 < y2 \/ (y1 = y2 /\ (m1 < m2 \/ (m1 = m2 /\ d1 < d2)))) ->
+    days_from_civil y1 m1 d1 < days_from_civil y2 m2 d2.
+Proof. exact days_strictly_chronological. Qed.
+Print Assumptions C26_day_count_is_chronological.
+
+Theorem C26_microsecond_count_is_chronological :
+  forall y1 m1 d1 h1 mi1 s1 us1 y2 m2 d2 h2 mi2 s2 us2,
+    valid_date y1 m1 d1 -> valid_date y2 m2 d2 -> valid_tod h1 mi1 s1 us1 -> valid_tod h2 mi2 s2 us2 ->
+    (y1 < y2 \/ (y1 = y2 /\ (m1 < m2 \/ (m1 = m2 /\ d1 < d2)))) ->
+    us_of y1 m1 d1 h1 mi1 s1 us1 < us_of y2 m2 d2 h2 mi2 s2 us2.
+Proof. exact us_of_strictly_chronological. Qed.
+Print Assumptions C26_microsecond_count_is_chronological.
+
+Theorem C26_same_day_is_chronological :
+  forall y m d h1 mi1 s1 us1 h2 mi2 s2 us2, valid_tod h1 mi1 s1 us1 -> valid_tod h2 mi2 s2 us2 ->
+    (h1 < h2 \/ (h1 = h2 /\ (mi1 < mi2 \/ (mi1 = mi2 /\ (s1 < s2 \/ (s1 = s2 /\ us1 < us2)))))) ->
+    us_of y m d h1 mi1 s1 us1 < us_of y m d h2 mi2 s2 us2.
+Proof. exact us_of_same_day_chronological. Qed.
+Print Assumptions C26_same_day_is_chronological.
+
+Example C26_temporal_nonvacuous :
+  compare (CDatetime 0) (CX (TTime 1500 6 15 0 0 0 0)) (CX (TTime 2000 1 1 0 0 0 0)) = -1 /\
+  compare (CDatetime 6) (CX (TTime 9999 12 31 23 59 59 999999)) (CX (TText 2000 1 1 0 0 0 0)) = 1 /\
+  compare CDate (CX (TTime 2024 2 29 23 0 0 0)) (CX (TText 2024 2 29 0 0 0 0)) = 0 /\
+  compare (CDatetime 0) (CX (TText 2023 1 15 10 30 45 500000)) (CX (TTime 2023 1 15 10 30 46 0)) = 0 /\
+  compare CYear (CX (TYearI 69)) (CX (TYearS 70)) = 1 /\
+  compare CBin (CX (TStr [97])) (CX (TStr [97; 98])) = -1 /\
+  days_from_civil 1970 1 1 = 0 /\ days_from_civil 2000 3 1 = 11017.
+Proof. exact nonvacuous_temporal. Qed.
+Print Assumptions C26_temporal_nonvacuous.
 
 Example C26_nonvacuous :
   compare (CInt I8) (CV (SI 300)) (CV (SI 400)) = -1 /\
